@@ -239,6 +239,7 @@ def make_programs(pid, tier, rng):
         progs += c16_loader_programs(rng, thorough)
     if pid == "C07":
         progs += c07_growth_programs(rng, thorough)
+        progs += capacity_witnesses()[0]
     if pid in ("C14", "C07"):
         # histories generated by TLC from the specification itself (spec -> impl direction)
         progs += tlc_programs(pid, 1500 if thorough else 250, vlib.seed() + int(pid[1:]))
@@ -448,10 +449,44 @@ def c16_loader_programs(rng, thorough):
             par = G.P(bwt=2) if img_kind == "FMINDEX" else G.param_grid(img_kind, S, False)[0]
             p = G.Prog("C16|%s|-|by_%s|crossload|image" % (img_kind, ld_kind))
             p.lines = [G.build_line(1, img_kind, par, S), "S 1 1", "CAT 1 1", G.load_line("LK", ld_kind, 1, 2, 1)]
+            if ld_kind in ("HASHHF", "HASHRPF", "HASHRPDAC", "BLOCKS"):        # loaders that take an option: every value
+                for k, opt in enumerate((2, 3)):
+                    p.lines += ["CAT %d 1" % (10 + k), G.load_line("LK", ld_kind, 10 + k, 20 + k, opt)]
             # the right loader still works on the same image afterwards
             p.lines += ["CAT 2 1", G.load_line("LK", img_kind, 2, 3, 1)] + G.sec_members(3, S, rng, 3)
             progs.append(p)
     return progs
+
+
+def capacity_witnesses():
+    """Capacity.tla with the ORIGINAL guard (GuardExtra = 0) has a counterexample: the distance
+    reserved - used before the bad append and the (len, lcp) of the appended string.  Scaled to the
+    library's own constant (MEMALLOC * bucketsize = 32768 * 2) it gives an input on which the original
+    guard overflows by one byte; it is kept as a regression input (the repaired guard must hold on it)."""
+    cfg = os.path.join(vlib.CACHE, "cfg", "capacity_orig.cfg")
+    os.makedirs(os.path.dirname(cfg), exist_ok=True)
+    open(cfg, "w").write("SPECIFICATION Spec\nCONSTANTS R0 = 8\nBucket = 2\nMaxLen = 4\nMaxStrings = 6\nGuardExtra = 0\nINVARIANT WriteFits\nCHECK_DEADLOCK FALSE\n")
+    r = vlib.tlc("Capacity", cfg, workers=2, timeout=600)
+    if r.violated != "WriteFits":
+        raise RuntimeError("vacuity: Capacity.tla no longer refutes the original guard")
+    m = re.findall(r"bad = <<(\d+), (\d+), (\d+), (\d+)>>", r.out)
+    dist, ln, lcp, header = map(int, m[-1])
+    cfg2 = os.path.join(vlib.CACHE, "cfg", "capacity_fixed.cfg")
+    open(cfg2, "w").write("SPECIFICATION Spec\nCONSTANTS R0 = 8\nBucket = 2\nMaxLen = 5\nMaxStrings = 7\nGuardExtra = 2\nINVARIANT WriteFits\nCHECK_DEADLOCK FALSE\n")
+    f = vlib.tlc("Capacity", cfg2, workers=4, timeout=900)
+    if f.rc != 0:
+        raise RuntimeError("Capacity.tla: the repaired guard does not keep WriteFits (rc=%s)" % f.rc)
+    progs = []
+    if (dist, ln, lcp, header) != (2, 1, 0, 0):
+        raise RuntimeError("Capacity.tla counterexample changed shape: %s" % ((dist, ln, lcp, header),))
+    # distance 2 before an internal one-byte string without common prefix, at the library's own reservation
+    S = G.pfc_capacity_witness(32768 * 2, 2)
+    for kind in G.FC:
+        p = G.Prog("C07|%s|b2|capwitness|capacity|built" % kind)
+        p.lines = [G.build_line(1, kind, G.P(bucket=2), S), "E 1 1", "E 1 %d" % len(S), "L 1 7a", "S 1 1", "CAT 1 1",
+                   G.load_line("LK", kind, 1, 2, 1), "E 2 %d" % len(S), "D 2", "D 1"]
+        progs.append(p)
+    return progs, {"capacity_model_states": f.distinct, "capacity_counterexample_original_guard": [dist, ln, lcp, header]}
 
 
 def c07_growth_programs(rng, thorough):
@@ -519,17 +554,17 @@ def design_run(pid, tier):
     r = vlib.tlc("CSDMC", cfg, workers=8, timeout=3000, java_opts=["-Xmx12g"])
     if r.rc != 0:
         raise RuntimeError("CSD small-scope model check failed for %s: rc=%s violated=%s" % (pid, r.rc, r.violated))
-    if pid in ("C04", "C07"):
-        # mechanism model: front-coding layout + locatePrefix transcribed, every read bounds-checked
+    if pid in ("C01", "C02", "C03", "C04", "C07"):
+        # mechanism model: front-coding layout, locate / extract / locatePrefix transcribed, every read bounds-checked
         n = 4 if tier == "quick" else 5
-        body = "SPECIFICATION Spec\nCONSTANTS Sigma = {97, 98}\nMaxLen = 3\nMaxN = %d\nBuckets = {2, 3, 4}\nFixed = %s\nINVARIANT Inv\nCHECK_DEADLOCK FALSE\n"
+        body = "SPECIFICATION Spec\nCONSTANTS Sigma = {97, 98}\nMaxLen = 3\nMaxN = %d\nBuckets = {2, 3, 4}\nFixed = %s\nINVARIANT %s\nCHECK_DEADLOCK FALSE\n"
         c1 = os.path.join(vlib.CACHE, "cfg", "fc_%s_%s.cfg" % (pid, tier))
-        open(c1, "w").write(body % (n, "TRUE"))
+        open(c1, "w").write(body % (n, "TRUE", "Inv2"))
         f = vlib.tlc("FrontCoding", c1, workers=8, timeout=3000, java_opts=["-Xmx12g"])
         if f.rc != 0:
             raise RuntimeError("FrontCoding.tla (code as fixed) violates RangeOK/NoOOB: rc=%s violated=%s" % (f.rc, f.violated))
         c2 = os.path.join(vlib.CACHE, "cfg", "fc_%s_%s_orig.cfg" % (pid, tier))
-        open(c2, "w").write(body % (2, "FALSE"))
+        open(c2, "w").write(body % (2, "FALSE", "Inv"))
         g = vlib.tlc("FrontCoding", c2, workers=4, timeout=600)
         if g.violated != "Inv":
             raise RuntimeError("vacuity: FrontCoding.tla no longer flags the original searchPrefix slip")
@@ -558,7 +593,7 @@ def hashutil_binding(pid, work, tier):
     hash kind depends on."""
     from checks import comp
     exe = vlib.build_harness("comp", comp.COMP_SRCS, "plain")
-    _w, bad, nev, _f = comp.trace_section(exe, "hashutil", work, tier)
+    _w, bad, nev, _f, _i = comp.trace_section(exe, "hashutil", work, tier)
     out = []
     for b in bad:
         out.append({"l": b["l"], "prog": "%s|HASH|-|nearest_prime|hashutil|built" % pid, "focus": "", "p": pid, "why": b["why"], "ev": b["ev"],
@@ -603,6 +638,14 @@ def run(pid, tier):
     rel = [b for b in bad if relevant(pid, b)]
     if pid == "C12":
         rel = c12_disagreements(bad, progs)
+    if pid == "C06":
+        rel += c06_disagreements(bad)
+    if pid == "C08":
+        # handle 3 of a 'reload' program is the object loaded from a re-saved image: it must answer like the original
+        for b in bad:
+            if b["p"] in FUNCTIONAL and b["p"] != "C08" and prog_fields(b["prog"])["section"] == "reload" and b.get("h") == 3:
+                b = dict(b, p="C08", why="object loaded from a re-saved image: " + b["why"])
+                rel.append(b)
     resolve_crash_sites(rel, work)
     if pid == "C07":
         rel, extra["memalloc_override_only"] = confirm_memalloc(rel, work)
@@ -761,6 +804,28 @@ def cross_process_digests(work, pid):
                                 "_progfile": os.path.join(work, f.replace(".ndjson", ".prog"))})
                 seen.setdefault(key, (ev["dg"], prog))
     return bad
+
+
+def c06_disagreements(bad):
+    """C06: an answer of a loaded object that the specification rejects although the built object of the same
+    (kind, parameters, input, battery) conforms for that kind of query - the loaded object does not answer
+    like the original.  (Kinds that are only usable after load have no built counterpart: every complaint on
+    the loaded object counts.)"""
+    built = {}
+    for b in bad:
+        f = prog_fields(b["prog"])
+        if f["origin"] == "built":
+            built.setdefault((f["kind"], f["par"].split("_L")[0], f["set"], f["section"]), set()).add((b["ev"], b["why"]))
+    out = []
+    for b in bad:
+        f = prog_fields(b["prog"])
+        if f["origin"] != "loaded" or b["p"] not in FUNCTIONAL or b["p"] == "C06" or b.get("origin") != "loaded":
+            continue
+        key = (f["kind"], f["par"].split("_L")[0], f["set"], f["section"])
+        if (b["ev"], b["why"]) in built.get(key, set()):
+            continue                      # the original object has the same complaint: not a persistence matter
+        out.append(dict(b, p="C06", why="loaded object answers differently from the original: " + b["why"]))
+    return out
 
 
 def c12_disagreements(bad, progs):
